@@ -28,10 +28,12 @@ Fixpoint meas_list (l : list value) : option (list tmeas) :=
   | v :: r => match meas_of_value v, meas_list r with Some m, Some ms => Some (m :: ms) | _, _ => None end
   end.
 
-(* kinds come in families: "ftm.dur", "ftm.dur.big", "ftm.meas.far", ... are evaluated alike; the suffix
+(* kinds come in families: "ftm.dur", "ftm.dur.big", "ftm.dur.huge", "ftm.meas.far", "ftm.dur.conc" (called
+   concurrently from several goroutines), ... are evaluated alike; the suffix
    only names the generator (and has its own coverage floor) *)
 Definition fam (k base : string) : bool :=
-  is k base || is k (base ++ ".big") || is k (base ++ ".far") || is k (base ++ ".beyond").
+  is k base || is k (base ++ ".big") || is k (base ++ ".huge") || is k (base ++ ".far") || is k (base ++ ".beyond")
+  || is k (base ++ ".conc").
 
 Definition glue_C02 (k : string) (a o : list value) : option verdict :=
   if fam k "ftm.midpoint" then
@@ -40,24 +42,27 @@ Definition glue_C02 (k : string) (a o : list value) : option verdict :=
     | [VZ x; VZ y], [VZ r] => Some (functional [VZ (midpoint x y)] o (C02_mid_ok x y r))
     | _, _ => None end
   else if is k "ftm.sgninv" then
+    (* Sgn and Inv are helpers of the anchored file the property says nothing about: agreement with the model only *)
     match a with [VZ x] => Some (functional [VZ (sgn x); VZ (inv x)] o true) | _ => None end
   else if fam k "ftm.dur" || fam k "median.dur" then
-    (* args: values, tags (1 = correct); observed: panicked, result, slice afterwards *)
+    (* args: values, tags (1 = correct; the generator's designated arbitrary set, not used by the oracle);
+       observed: panicked, result, slice afterwards, tail (1 = the elements of the backing array between len
+       and cap of the slice passed in are untouched) *)
     match a, o with
-    | [VL vs; VL ts], [VZ pan; VZ res; VL after] =>
+    | [VL vs; VL ts], [VZ pan; VZ res; VL after; VZ tail] =>
         match getZs vs, getZs ts, getZs after with
         | Some vs, Some ts, Some after =>
             let isf := fam k "ftm.dur" in
             let r := if isf then ftm vs else median vs in
             let oracle :=
               match vs with
-              | [] => negb (pan =? 0)
-              | _ => (pan =? 0) && C02_reorder_ok vs after
-                     && (if isf then C02_ftm_ok (zip_tags vs ts) res else C02_median_ok vs res)
+              | [] => negb (pan =? 0) && (tail =? 1)
+              | _ => (pan =? 0) && C02_reorder_ok vs after && (tail =? 1)
+                     && (if isf then C02_ftm_strong_ok vs res else C02_median_ok vs res)
               end in
             match r with
-            | Some x => Some (functional [VZ 0; VZ x; VL (map VZ (zsort vs))] o oracle)
-            | None => Some (functional [VZ 1; VZ 0; VL []] o oracle)
+            | Some x => Some (functional [VZ 0; VZ x; VL (map VZ (zsort vs)); VZ 1] o oracle)
+            | None => Some (functional [VZ 1; VZ 0; VL []; VZ 1] o oracle)
             end
         | _, _, _ => None end
     | _, _ => None end
@@ -76,26 +81,60 @@ Definition glue_C02 (k : string) (a o : list value) : option verdict :=
         | _, _ => None end
     | _, _ => None end
   else if fam k "ftm.meas" || fam k "median.meas" then
-    (* args: measurements [sec nsec off err], tags; observed: panicked, result [sec nsec off err], slice afterwards *)
+    (* args: measurements [sec nsec off err], tags; observed: panicked, result [sec nsec off err], slice afterwards, tail *)
     match a, o with
-    | [VL ms; VL ts], [VZ pan; VL [VZ rsec; VZ rnsec; VZ roff; VZ rerr]; VL after] =>
+    | [VL ms; VL ts], [VZ pan; VL [VZ rsec; VZ rnsec; VZ roff; VZ rerr]; VL after; VZ tail] =>
         match meas_list ms, getZs ts, meas_list after with
         | Some ms, Some ts, Some after =>
             match ms with
-            | [] => Some (relational (negb (pan =? 0)) (negb (pan =? 0)))
+            | [] => Some (relational (negb (pan =? 0) && (tail =? 1)) (negb (pan =? 0) && (tail =? 1)))
             | _ =>
                 let isf := fam k "ftm.meas" in
                 let res := {| tm_ts := {| gt_sec := rsec; gt_nsec := rnsec |}; tm_off := roff; tm_err := negb (rerr =? 0) |} in
                 (* model: any sorted permutation may be left behind; the result is the function of that slice *)
-                let agree := (pan =? 0) && C02_reorder_m_ok ms after
+                let agree := (pan =? 0) && (tail =? 1) && C02_reorder_m_ok ms after
                              && tm_eqb res (if isf then tftm_sorted after else tmedian_sorted after) in
-                let oracle := (pan =? 0)
-                              && (if isf then C02_meas_ftm_ok (zip_tags (map tm_off ms) ts) ms res after
-                                  else C02_meas_median_ok ms res after) in
+                let oracle := (pan =? 0) && (tail =? 1)
+                              && (if isf then C02_meas_ftm_ok ms res after else C02_meas_median_ok ms res after) in
                 Some (relational agree oracle)
             end
         | _, _, _ => None end
     | _, _ => None end
+  else if is k "ftm.meas.perm" || is k "ftm.meas.tieorder" then
+    (* args: measurements, a permuted copy; observed: FaultTolerantMidpoint of each, Median of each.
+       ftm.meas.perm: offset and nil error always equal, timestamps equal when the offsets are pairwise distinct;
+       ftm.meas.tieorder: the property text taken literally - the whole results equal *)
+    match a, o with
+    | [VL ms1; VL ms2], [VL [VZ s1; VZ n1; VZ o1; VZ e1]; VL [VZ s2; VZ n2; VZ o2; VZ e2];
+                         VL [VZ s3; VZ n3; VZ o3; VZ e3]; VL [VZ s4; VZ n4; VZ o4; VZ e4]] =>
+        match meas_list ms1, meas_list ms2 with
+        | Some ((_ :: _) as ms1), Some ms2 =>
+            if multiset_eqb tm_eqb ms1 ms2 then
+              let mk s n o e := {| tm_ts := {| gt_sec := s; gt_nsec := n |}; tm_off := o; tm_err := negb (e =? 0) |} in
+              let f1 := mk s1 n1 o1 e1 in let f2 := mk s2 n2 o2 e2 in
+              let m1 := mk s3 n3 o3 e3 in let m2 := mk s4 n4 o4 e4 in
+              (* model: offsets are those of the plain functions; with pairwise distinct offsets the sorted slice,
+                 hence the whole result, is unique *)
+              let srt := isort tm_off ms1 in
+              let agree :=
+                match ftm (map tm_off ms1), median (map tm_off ms1) with
+                | Some fo, Some mo =>
+                    (o1 =? fo) && (o2 =? fo) && (o3 =? mo) && (o4 =? mo) && (e1 =? 0) && (e2 =? 0) && (e3 =? 0) && (e4 =? 0)
+                    && (if nodupb (map tm_off ms1)
+                        then tm_eqb f1 (tftm_sorted srt) && tm_eqb f2 (tftm_sorted srt)
+                             && tm_eqb m1 (tmedian_sorted srt) && tm_eqb m2 (tmedian_sorted srt)
+                        else true)
+                | _, _ => false end in
+              let oracle :=
+                if is k "ftm.meas.perm" then C02_meas_perm_ok ms1 f1 f2 && C02_meas_perm_ok ms1 m1 m2
+                else C02_meas_perm_strict_ok f1 f2 && C02_meas_perm_strict_ok m1 m2 in
+              Some (relational agree oracle)
+            else None
+        | _, _ => None end
+    | _, _ => None end
+  else if is k "ftm.meas.utc" then
+    (* the assumption of the time model, checked on the running toolchain: time.Now().UTC() carries no monotonic reading *)
+    match o with [VZ _] => Some (functional [VZ 0] o true) | _ => None end
   else None.
 
 Definition run_case (k : string) (a o : list value) : verdict :=
